@@ -74,6 +74,8 @@ def gen(t, tier):
     # a second, transparent source on top (an overlay): while it "fails softly" its error handler answers with an uncacheable
     # transparent image - what is built from it may be served but must not be written into the cache
     sc['overlay'] = bool(t.chance(0.2))
+    # (file backends) the tile manager is built by the configuration loader from a cache with refresh_before and two grids
+    sc['via_loader'] = t.pick([None, None, None, 60, 3600]) if backend['type'] == 'file' else None
     nops = t.randint(6, 18 if tier == 'quick' else 30)
     for _ in range(nops):
         k = t.weighted([('softfail', 2 if sc['overlay'] else 0), ('req', 8), ('adv', 5), ('thr', 3), ('touch', 1), ('upfail', 1), ('seed', 1), ('req2', 3),
@@ -246,6 +248,20 @@ def _run(sc, tape):
             return ImageSource(Image.new('RGBA', tuple(query.size), (0, 0, 0, 0)), size=tuple(query.size), image_opts=opts, cacheable=True)
 
     def make_tm():
+        if sc.get('via_loader'):
+            # the tile manager comes out of the real configuration loader: a cache with its own refresh_before option and two
+            # grids (the first one is used); only its sources are replaced by the simulated upstream
+            from checks import fullstack as F
+            b_ = sc['backend']
+            conf = F.base_conf({'type': 'file', 'directory_layout': b_.get('layout', 'tc')}, meta_size=sc['meta_size'],
+                               refresh_before={'seconds': sc['via_loader']}, link=b_.get('link') or False)
+            conf['caches']['c1']['meta_buffer'] = sc['meta_buffer']
+            conf['grids']['g2'] = {'srs': 'EPSG:3857', 'tile_size': [U.TS, U.TS], 'num_levels': 3, 'origin': 'ul'}
+            conf['caches']['c1']['grids'] = ['g', 'g2']
+            pc_ = F.make_conf(conf)
+            tmx = [t_ for _, _, t_ in pc_.caches['c1'].caches()][0]
+            tmx.sources = [U.SimSource(w, shared, image_opts=image_opts)] + ([Overlay()] if sc.get('overlay') else [])
+            return tmx
         cache = C.make_cache(sc['backend'], cdir)
         locker = TileLocker('/simfs/locks', 60, cache.lock_cache_id)
         src = U.SimSource(w, shared, image_opts=image_opts)
@@ -364,6 +380,8 @@ def _run(sc, tape):
 
     def driver():
         tm = make_tm()
+        if sc.get('via_loader'):
+            state['thr'] = {'kind': 'rel', 'unit': 'seconds', 'n': sc['via_loader']}
         pool = [tuple(c) for c in sc['pool']]
         all_level = [(x, y, sc['level']) for x in range(1 << sc['level']) for y in range(1 << sc['level'])]
         for i, op in enumerate(sc['ops']):
